@@ -672,6 +672,62 @@ func (in *inliner) expandAssignMulti(info *types.Info, as *ast.AssignStmt, call 
 		}
 		return id
 	}
+	mkAssign := func(x *ast.ReturnStmt) ast.Stmt {
+		// drop `a = a` produced by returning a named result
+		var lhs, rhs []ast.Expr
+		for k, r := range x.Results {
+			if id, ok := unparen(r).(*ast.Ident); ok && info.Uses[id] != nil && (info.Uses[id] == info.Defs[targets[k]] || info.Uses[id] == info.Uses[targets[k]]) {
+				continue
+			}
+			if targets[k].Name == "_" {
+				continue
+			}
+			lhs = append(lhs, mkTarget(k))
+			rhs = append(rhs, r)
+		}
+		if len(lhs) == 0 {
+			return nil
+		}
+		return &ast.AssignStmt{Lhs: lhs, TokPos: x.Pos(), Tok: token.ASSIGN, Rhs: rhs}
+	}
+	// terminates: every path through the statement ends in a return
+	var terminates func(s ast.Stmt) bool
+	var listTerminates func(list []ast.Stmt) bool
+	listTerminates = func(list []ast.Stmt) bool {
+		return len(list) > 0 && terminates(list[len(list)-1])
+	}
+	terminates = func(s ast.Stmt) bool {
+		switch x := s.(type) {
+		case *ast.ReturnStmt:
+			return true
+		case *ast.BlockStmt:
+			return listTerminates(x.List)
+		case *ast.IfStmt:
+			if x.Else == nil || !listTerminates(x.Body.List) {
+				return false
+			}
+			return terminates(x.Else)
+		case *ast.SwitchStmt, *ast.TypeSwitchStmt:
+			var body *ast.BlockStmt
+			if sw, ok := x.(*ast.SwitchStmt); ok {
+				body = sw.Body
+			} else {
+				body = x.(*ast.TypeSwitchStmt).Body
+			}
+			hasDefault := false
+			for _, cs := range body.List {
+				cc := cs.(*ast.CaseClause)
+				if cc.List == nil {
+					hasDefault = true
+				}
+				if !listTerminates(cc.Body) {
+					return false
+				}
+			}
+			return hasDefault
+		}
+		return false
+	}
 	var conv func(list []ast.Stmt) []ast.Stmt
 	conv = func(list []ast.Stmt) []ast.Stmt {
 		var out []ast.Stmt
@@ -679,41 +735,86 @@ func (in *inliner) expandAssignMulti(info *types.Info, as *ast.AssignStmt, call 
 			switch x := s.(type) {
 			case *ast.ReturnStmt:
 				if len(x.Results) == nres {
-					// drop `a = a` produced by returning a named result
-					var lhs, rhs []ast.Expr
-					for k, r := range x.Results {
-						if id, ok := unparen(r).(*ast.Ident); ok && id == targets[k] {
-							continue
-						}
-						if id, ok := unparen(r).(*ast.Ident); ok && info.Uses[id] != nil && (info.Uses[id] == info.Defs[targets[k]] || info.Uses[id] == info.Uses[targets[k]]) {
-							continue
-						}
-						lhs = append(lhs, mkTarget(k))
-						rhs = append(rhs, r)
-					}
-					if len(lhs) > 0 {
-						out = append(out, &ast.AssignStmt{Lhs: lhs, TokPos: x.Pos(), Tok: token.ASSIGN, Rhs: rhs})
+					if a := mkAssign(x); a != nil {
+						out = append(out, a)
 					}
 				}
 				return out
+			case *ast.BlockStmt:
+				if len(returnsIn(x)) == 0 {
+					out = append(out, s)
+					continue
+				}
+				x.List = conv(x.List)
+				out = append(out, x)
+				if terminates(s) {
+					return out
+				}
 			case *ast.IfStmt:
 				if len(returnsIn(x)) == 0 {
 					out = append(out, s)
 					continue
 				}
-				endsInReturn := false
-				if n := len(x.Body.List); n > 0 {
-					_, endsInReturn = x.Body.List[n-1].(*ast.ReturnStmt)
-				}
+				thenTerm := listTerminates(x.Body.List)
 				x.Body.List = conv(x.Body.List)
-				if endsInReturn {
+				switch e := x.Else.(type) {
+				case *ast.BlockStmt:
+					et := listTerminates(e.List)
+					e.List = conv(e.List)
+					if thenTerm && et {
+						return append(out, x)
+					}
+					// one branch returned, the other falls through to the rest: the rest belongs to the falling branch
 					rest := conv(list[i+1:])
-					if len(rest) > 0 {
-						x.Else = &ast.BlockStmt{Lbrace: x.End(), List: rest, Rbrace: x.End()}
+					if thenTerm {
+						e.List = append(e.List, rest...)
+					} else if et {
+						x.Body.List = append(x.Body.List, rest...)
+					} else {
+						out = append(out, x)
+						continue
 					}
 					return append(out, x)
+				case *ast.IfStmt:
+					wrapped := conv([]ast.Stmt{e})
+					x.Else = &ast.BlockStmt{Lbrace: e.Pos(), List: wrapped, Rbrace: e.End()}
+					if thenTerm && terminates(e) {
+						return append(out, x)
+					}
+					out = append(out, x)
+					continue
+				case nil:
+					if thenTerm {
+						rest := conv(list[i+1:])
+						if len(rest) > 0 {
+							x.Else = &ast.BlockStmt{Lbrace: x.End(), List: rest, Rbrace: x.End()}
+						}
+						return append(out, x)
+					}
+					out = append(out, x)
+				}
+			case *ast.SwitchStmt:
+				if len(returnsIn(x)) > 0 {
+					for _, cs := range x.Body.List {
+						cc := cs.(*ast.CaseClause)
+						cc.Body = conv(cc.Body)
+					}
 				}
 				out = append(out, x)
+				if terminates(s) {
+					return out
+				}
+			case *ast.TypeSwitchStmt:
+				if len(returnsIn(x)) > 0 {
+					for _, cs := range x.Body.List {
+						cc := cs.(*ast.CaseClause)
+						cc.Body = conv(cc.Body)
+					}
+				}
+				out = append(out, x)
+				if terminates(s) {
+					return out
+				}
 			default:
 				out = append(out, s)
 			}
@@ -724,27 +825,122 @@ func (in *inliner) expandAssignMulti(info *types.Info, as *ast.AssignStmt, call 
 	return append(res, conv(copied)...)
 }
 
-// guardOnlyVals: like guardOnly for functions with n results (bare returns allowed when the results are named).
+// guardOnlyVals: every return of the list has n results (or is bare with named results) and stands in a position the
+// rewriting of expandAssignMulti understands: last statement of a list; inside an `if` (with or without else), a block, or a
+// case of a (type) switch at statement-list level, where a branching statement that returns on SOME paths only is either an
+// else-less `if` whose body ends in the return (guard clause) or is followed by nothing that a returning path must skip.
 func guardOnlyVals(list []ast.Stmt, n int, named bool) bool {
-	for i, s := range list {
+	okRet := func(x *ast.ReturnStmt) bool { return len(x.Results) == n || (named && len(x.Results) == 0) }
+	var term func(s ast.Stmt) bool
+	var listTerm func(l []ast.Stmt) bool
+	listTerm = func(l []ast.Stmt) bool { return len(l) > 0 && term(l[len(l)-1]) }
+	term = func(s ast.Stmt) bool {
 		switch x := s.(type) {
 		case *ast.ReturnStmt:
-			if i != len(list)-1 || !(len(x.Results) == n || (named && len(x.Results) == 0)) {
-				return false
-			}
+			return true
+		case *ast.BlockStmt:
+			return listTerm(x.List)
 		case *ast.IfStmt:
-			if len(returnsIn(x)) == 0 {
-				continue
+			return x.Else != nil && listTerm(x.Body.List) && term(x.Else)
+		case *ast.SwitchStmt:
+			def := false
+			for _, cs := range x.Body.List {
+				cc := cs.(*ast.CaseClause)
+				if cc.List == nil {
+					def = true
+				}
+				if !listTerm(cc.Body) {
+					return false
+				}
 			}
-			if x.Else != nil || !guardOnlyVals(x.Body.List, n, named) {
-				return false
+			return def
+		case *ast.TypeSwitchStmt:
+			def := false
+			for _, cs := range x.Body.List {
+				cc := cs.(*ast.CaseClause)
+				if cc.List == nil {
+					def = true
+				}
+				if !listTerm(cc.Body) {
+					return false
+				}
 			}
-		default:
-			if len(returnsIn(s)) > 0 {
-				return false
+			return def
+		}
+		return false
+	}
+	var ok func(l []ast.Stmt) bool
+	ok = func(l []ast.Stmt) bool {
+		for i, s := range l {
+			last := i == len(l)-1
+			switch x := s.(type) {
+			case *ast.ReturnStmt:
+				if !last || !okRet(x) {
+					return false
+				}
+			case *ast.BlockStmt:
+				if len(returnsIn(x)) == 0 {
+					continue
+				}
+				if !ok(x.List) || (!last && !term(s)) {
+					return false
+				}
+			case *ast.IfStmt:
+				if len(returnsIn(x)) == 0 {
+					continue
+				}
+				if !ok(x.Body.List) {
+					return false
+				}
+				switch e := x.Else.(type) {
+				case nil:
+					// guard clause (body ends in return) or tail position
+					if !listTerm(x.Body.List) && !last {
+						return false
+					}
+				case *ast.BlockStmt:
+					if !ok(e.List) {
+						return false
+					}
+					if !last && !listTerm(x.Body.List) && !listTerm(e.List) {
+						return false
+					}
+				case *ast.IfStmt:
+					if !ok([]ast.Stmt{e}) || (!last && !term(s)) {
+						return false
+					}
+				}
+			case *ast.SwitchStmt:
+				if len(returnsIn(x)) == 0 {
+					continue
+				}
+				for _, cs := range x.Body.List {
+					if !ok(cs.(*ast.CaseClause).Body) {
+						return false
+					}
+				}
+				if !last && !term(s) {
+					return false
+				}
+			case *ast.TypeSwitchStmt:
+				if len(returnsIn(x)) == 0 {
+					continue
+				}
+				for _, cs := range x.Body.List {
+					if !ok(cs.(*ast.CaseClause).Body) {
+						return false
+					}
+				}
+				if !last && !term(s) {
+					return false
+				}
+			default:
+				if len(returnsIn(s)) > 0 {
+					return false // a return inside a loop, select, labelled statement
+				}
 			}
 		}
+		return true
 	}
-	// the list must end in a return (all paths return)
-	return true
+	return ok(list)
 }
